@@ -103,7 +103,49 @@ class Checker:
 
 
 # ---------------------------------------------------------------------------------------------------
-def pre_facts(tu, fn, op):
+def at_index(tu, fn, struct, fld, qname, value):
+    """observer term of element `value` (substituted for the symbolic query index argument qname)"""
+    sm = tu.S(fn)
+    t = tu.obs(fn, struct, fld, at=True)
+    return sm.interp.subst_atoms(t, {("arg", tu.argidx(fn, qname)): value})
+
+
+def state_invariants(tu, fn, which, qname, struct):
+    """the inductive state invariants (as conditions over observers of state `which` = 'pre' | 'post'):
+         INV-C  size() <= capacity()
+         INV-B  size() == 0  =>  data_end() == data_begin()
+         INV-A  size() >  0  =>  element 0 starts at data_begin()
+       returned as (name, hypothesis condition or TRUE, equality (lhs, rhs) or condition)"""
+    size = tu.obs(fn, which, "size")
+    out = [("INV-C", TRUE, ("cond", c_cmp("ule", size, tu.obs(fn, which, "cap"))))]
+    out.append(("INV-B", c_cmp("eq", size, ZERO), ("eq", tu.obs(fn, which, "end"), tu.obs(fn, which, "begin"))))
+    if struct is not None:
+        out.append(("INV-A", c_cmp("ult", ZERO, size), ("eq", at_index(tu, fn, struct, "db", qname, ZERO), tu.obs(fn, which, "begin"))))
+    return out
+
+
+def block_cong(tu, fn, structs=("pre", "pre_w")):
+    """I1 (the property's own hypothesis): the allocator returns blocks aligned for its value_type, i.e. the
+    block pointer(s) of the pre-state are ≡ 0 modulo the storage alignment"""
+    sea = tu.pl.sea
+    blocks = set()
+    for st in structs:
+        if st in tu.meta[fn]["params"]:
+            a = tu.obs(fn, st, "begin").single_atom()
+            if a is not None:
+                blocks.add(a)
+
+    def cong(a):
+        if a in blocks:
+            return (sea, 0)
+        if a[0] == "fresh" and len(a) > 2 and a[2] == "alloc":
+            return (sea, 0)
+        return None
+
+    return cong
+
+
+def pre_facts(tu, fn, op, inv=True):
     """documented preconditions + state invariants of the pre-state, as facts over observer terms"""
     size = tu.obs(fn, "pre", "size")
     cap = tu.obs(fn, "pre", "cap")
@@ -118,7 +160,76 @@ def pre_facts(tu, fn, op):
     elif op == "erase2":
         fs.append(c_cmp("ule", P("i"), P("j")))
         fs.append(c_cmp("ule", P("j"), size))
-    return Facts(fs)
+    f = Facts(fs, cong=block_cong(tu, fn))
+    if inv and "apre" in tu.meta[fn]["params"]:
+        for name, hyp, concl in state_invariants(tu, fn, "pre", "q1", "apre"):
+            if concl[0] != "eq":
+                continue
+            # conditional invariants are added when their hypothesis follows from the precondition;
+            # rules that split on size()==0 add them per case through add_invariants()
+            if hyp == TRUE or f.decide(hyp) is True:
+                f.add(c_cmp("eq", concl[1], concl[2]))
+    return f
+
+
+def extend(facts, *conds):
+    f = facts.copy()
+    for c in conds:
+        f.add(c)
+    return f
+
+
+def add_invariants(tu, fn, facts):
+    """facts + those conditional pre-state invariants whose hypothesis the facts decide"""
+    f = facts.copy()
+    if "apre" not in tu.meta[fn]["params"]:
+        return f
+    for name, hyp, concl in state_invariants(tu, fn, "pre", "q1", "apre"):
+        if concl[0] == "eq" and hyp != TRUE and f.decide(hyp) is True:
+            f.add(c_cmp("eq", concl[1], concl[2]))
+    return f
+
+
+def rule_INV(ck, rule="INV"):
+    """every mutating operation preserves the state invariants (so rules may assume them on any reachable state)"""
+    tu = ck.tu
+    for op in MUTATORS:
+        fn = "w_" + op
+        if not tu.has(fn):
+            continue
+        base = pre_facts(tu, fn, op)
+        for name, hyp, concl in state_invariants(tu, fn, "post", "q2", "apost"):
+            cases = [base]
+            if op in ("reserve", "clear", "erase2", "emplace_back", "erase1", "pop_back"):
+                # the pre-state may be empty or not: decide per case so that INV-A / INV-B of the pre-state apply
+                size = tu.obs(fn, "pre", "size")
+                cases = [add_invariants(tu, fn, extend(base, c_cmp("eq", size, ZERO))),
+                         add_invariants(tu, fn, extend(base, c_cmp("ult", ZERO, size)))]
+            for f0 in cases:
+                if f0.infeasible():
+                    continue
+                f = f0.copy()
+                if hyp != TRUE:
+                    f.add(hyp)
+                    if f.infeasible():
+                        continue
+                if concl[0] == "eq":
+                    ck.eq(rule, fn, "%s after %s" % (name, op), concl[1], concl[2], f, key="%s:%s" % (op, name))
+                else:
+                    v = None
+                    ok = True
+                    for ff in case_split([concl[1]], f):
+                        v = ff.decide(simplify_cond_(concl[1], ff))
+                        if v is not True:
+                            ok = False
+                    ck.rec.ob(rule, ok, {"config": tu.cfg, "witness": fn, "obligation": "%s after %s" % (name, op)})
+                    if not ok:
+                        ck.rec.finding(rule, "%s:%s[%s]" % (op, name, ck.catkey()), "%s does not preserve %s: %s not implied" % (fn, name, show_cond(concl[1])), config=tu.cfg)
+
+
+def simplify_cond_(c, facts):
+    from .logic import simplify_cond
+    return simplify_cond(c, facts)
 
 
 def b2i(c):
@@ -192,7 +303,7 @@ def rule_C16(ck, rule="NR"):
         when = None
         if op == "reserve":
             # the clause covers reserve(n) with n <= capacity()
-            facts = Facts(facts.raw + [c_not(c_cmp("ult", p("cap"), tu.arg(fn, "n")))])
+            facts = extend(facts, c_not(c_cmp("ult", p("cap"), tu.arg(fn, "n"))))
             when = facts
         ck.no_events(rule + "-alloc", fn, ("ALLOC", "DEALLOC", "RAWNEW", "RAWDELETE"), "(must request nothing from the allocator)", when=when)
         ck.eq(rule + "-block", fn, "data_begin()", g("begin"), p("begin"), facts)
@@ -214,7 +325,7 @@ def rule_C16(ck, rule="NR"):
         q1, q2 = tu.arg(fn, "q1"), tu.arg(fn, "q2")
         size = tu.obs(fn, "pre", "size")
         bound = size if op == "emplace_back" else (size - 1 if op == "pop_back" else tu.arg(fn, "i"))
-        f2 = Facts(facts.raw + [c_cmp("eq", q1, q2), c_cmp("ult", q2, bound)])
+        f2 = extend(facts, c_cmp("eq", q1, q2), c_cmp("ult", q2, bound))
         for fld in ("addr0", "db", "itdata"):
             ck.eq(rule + "-addr", fn, "address of element q (%s) for q in front of the operation" % fld,
                   tu.obs(fn, "apost", fld, at=True), tu.obs(fn, "apre", fld, at=True), f2)
@@ -247,8 +358,8 @@ def rule_C10(ck, rule="RS"):
     n = tu.arg(fn, "n")
     cap = p("cap")
     base = pre_facts(tu, fn, "reserve")
-    grow = Facts(base.raw + [c_cmp("ult", cap, n)])
-    stay = Facts(base.raw + [c_not(c_cmp("ult", cap, n))])
+    grow = extend(base, c_cmp("ult", cap, n))
+    stay = extend(base, c_not(c_cmp("ult", cap, n)))
     for facts, nm in ((grow, "n > capacity()"), (stay, "n <= capacity()")):
         ck.eq(rule + "-size", fn, "size() [%s]" % nm, g("size"), p("size"), facts)
         for i in range(tu.pl.nfixed):
@@ -273,7 +384,7 @@ def rule_C10(ck, rule="RS"):
                            config=tu.cfg)
     # element q keeps its offset inside the block
     q1, q2 = tu.arg(fn, "q1"), tu.arg(fn, "q2")
-    f2 = Facts(grow.raw + [c_cmp("eq", q1, q2), c_cmp("ult", q2, p("size"))])
+    f2 = extend(grow, c_cmp("eq", q1, q2), c_cmp("ult", q2, p("size")))
     for fld in ("addr0", "db"):
         ck.eq(rule + "-offset", fn, "offset of element q in the block (%s)" % fld,
               tu.obs(fn, "apost", fld, at=True) - g("begin"), tu.obs(fn, "apre", fld, at=True) - p("begin"), f2)
@@ -284,31 +395,77 @@ def rule_C10(ck, rule="RS"):
 # ---------------------------------------------------------------------------------------------------
 def rule_T3(ck, rule="T3"):
     tu = ck.tu
-    fn = "w_emplace_back"
+    fn = "w_emplace_back_new"
     if not tu.has(fn):
         return
     facts = pre_facts(tu, fn, "emplace_back")
     g = lambda f: tu.obs(fn, "post", f)
     p = lambda f: tu.obs(fn, "pre", f)
-    q2 = tu.arg(fn, "q2")
-    f2 = Facts(facts.raw + [c_cmp("eq", q2, p("size"))])
+    A = lambda f: tu.obs(fn, "anew", f, at=True)
     sea = tu.pl.sea
-    start = tu.obs(fn, "apost", "db", at=True)
+    start = A("db")
     # the new element is what operator[](size(pre)) denotes afterwards and starts at the old data_end(),
     # aligned for the first parameter (tightness and alignment proper are C05/C03)
-    d = simplify(start - p("end"), f2)
+    d = simplify(start - p("end"), facts)
     ok = d.is_const() and d.c == 0
     if not ok:
-        a = simplify(start, f2) - simplify(mk_alignup(p("end"), sea), f2)
+        a = simplify(start, facts) - simplify(mk_alignup(p("end"), sea), facts)
         ok = a.is_const() and a.c == 0
     ck.rec.ob(rule, ok, {"config": tu.cfg, "obligation": "v[size(pre)] after emplace_back starts at data_end(pre) (aligned to %d)" % sea,
-                         "got": show(simplify(start, f2))[:200]})
+                         "got": show(simplify(start, facts))[:200]})
     if not ok:
-        if has_unknown(simplify(start, f2)):
-            ck.rec.broken("%s T3: start of new element undecided: %s" % (tu.cfg, show(simplify(start, f2))))
+        if has_unknown(simplify(start, facts)):
+            ck.rec.broken("%s T3: start of new element undecided: %s" % (tu.cfg, show(simplify(start, facts))))
         else:
             ck.rec.finding(rule, "emplace_back:new-element-start[%s]" % ck.catkey(),
                            "v[size(pre)] after emplace_back starts at %s, expected data_end(pre)=%s (aligned to %d)" % (
-                               show(simplify(start, f2)), show(p("end")), sea), config=tu.cfg)
-    ck.eq(rule, fn, "data_end() == end of the new last element", g("end"), tu.obs(fn, "apost", "de", at=True), f2)
-    ck.eq(rule, fn, "element start == address of field 0 == iterator.data()", tu.obs(fn, "apost", "db", at=True), tu.obs(fn, "apost", "itdata", at=True), f2)
+                               show(simplify(start, facts)), show(p("end")), sea), config=tu.cfg)
+    if tu.pl.all_fixed_locator:
+        # constant stride: data_end() advances by exactly one element stride
+        ck.eq(rule, fn, "data_end() advances by the element stride", g("end"), p("end") + p("step"), facts)
+        ck.eq(rule, fn, "element stride unchanged", g("step"), p("step"), facts)
+    else:
+        ck.eq(rule, fn, "data_end() == end of the new last element", g("end"), A("de"), facts)
+    ck.eq(rule, fn, "element start == iterator.data()", A("db"), A("itdata"), facts)
+    ck.eq(rule, fn, "element start == address of field 0", A("db"), A("addr0"), facts)
+
+
+# ---------------------------------------------------------------------------------------------------
+# T4: erase shifts the tail down by exactly the erased extent
+# ---------------------------------------------------------------------------------------------------
+def rule_T4(ck, rule="T4"):
+    tu = ck.tu
+    if not tu.pl.all_fixed_locator and not tu.pl.trivial:
+        # element-wise relocation through the address table: each element's new start depends on the
+        # previous iteration's store (a recurrence) - not summarised; see DESIGN §4 C01/C06
+        ck.rec.count("T4_not_decided_nontrivial_varying_lists")
+        return
+    for op in ("erase1", "erase2"):
+        fn = "w_" + op
+        if not tu.has(fn):
+            continue
+        base = pre_facts(tu, fn, op)
+        g = lambda f: tu.obs(fn, "post", f)
+        p = lambda f: tu.obs(fn, "pre", f)
+        i = tu.arg(fn, "i")
+        j = i + 1 if op == "erase1" else tu.arg(fn, "j")
+        size = p("size")
+        start_i = tu.obs(fn, "ai", "db", at=True)
+        start_j = tu.obs(fn, "aj", "db", at=True)
+        shift = start_j - start_i
+        # (a) data_end: tail present -> moves down by the erased extent; no tail -> start of first erased
+        #     element; empty range -> unchanged
+        tail = add_invariants(tu, fn, extend(base, c_cmp("ult", j, size), c_cmp("ult", i, j)))
+        notail = add_invariants(tu, fn, extend(base, c_cmp("eq", j, size), c_cmp("ult", i, j)))
+        ck.eq(rule + "-end", fn, "data_end() with elements behind the erased range", g("end"), p("end") - shift, tail)
+        ck.eq(rule + "-end", fn, "data_end() when erasing up to the end", g("end"), start_i, notail)
+        if op == "erase2":
+            empty = extend(base, c_cmp("eq", i, j))
+            ck.eq(rule + "-end", fn, "data_end() after erasing an empty range", g("end"), p("end"), empty)
+            ck.eq(rule + "-end", fn, "size() after erasing an empty range", g("size"), size, empty)
+        # (b) element q2 >= i afterwards is the old element q2 + (j - i), moved down by the erased extent
+        q1, q2 = tu.arg(fn, "q1"), tu.arg(fn, "q2")
+        moved = extend(tail, c_cmp("ule", i, q2), c_cmp("ult", q2, size - (j - i)), c_cmp("eq", q1, q2 + (j - i)))
+        for fld in ("db", "itdata", "addr0"):
+            ck.eq(rule + "-shift", fn, "start of element q >= first after erase (%s)" % fld,
+                  tu.obs(fn, "apost", fld, at=True), tu.obs(fn, "apre", fld, at=True) - shift, moved)
